@@ -26,20 +26,31 @@ struct MCase {
     seqs: Vec<String>,
 }
 
-const SCORES: [&str; 8] = ["lexicographic", "reverse", "constant", "at_count", "rc_min", "parity", "wide_shifted", "wide_hash64"];
+const SCORES: [&str; 9] = ["lexicographic", "reverse", "constant_usize_max", "at_count", "rc_min", "parity", "wide_shifted", "wide_hash64", "extremes"];
 fn score_of(which: usize, p: usize, s: &[u8]) -> usize {
     let np = 1usize << (2 * p);
     let r = rank(s) as usize;
     match which {
         0 => r,
         1 => np - 1 - r,
-        2 => 7,
+        // every p-mer scores the largest representable value (all ties, and no score is "smaller than the start value")
+        2 => usize::MAX,
         3 => s.iter().filter(|b| **b == 0 || **b == 3).count(),
         4 => r.min(rank(&rc(s)) as usize),
         5 => r % 2,
         // scores that need all 64 bits: order decided by the high half / by a 64-bit multiplicative hash
         6 => (r << 40) | (np - 1 - r),
-        _ => (r as u64 + 1).wrapping_mul(0x9E37_79B9_7F4A_7C15) as usize,
+        7 => (r as u64 + 1).wrapping_mul(0x9E37_79B9_7F4A_7C15) as usize,
+        // only the extreme values: homopolymers usize::MAX, every third rank 0, the rest usize::MAX - 1
+        _ => {
+            if s.iter().all(|b| *b == s[0]) {
+                usize::MAX
+            } else if r % 3 == 0 {
+                0
+            } else {
+                usize::MAX - 1
+            }
+        }
     }
 }
 
@@ -326,7 +337,7 @@ fn plan_c07(quick: bool, rep: &mut Report) {
         let mut blocks = vec![];
         for k in p..=p + 5 {
             for len in k..=lmax {
-                for score in 0..8 {
+                for score in 0..9 {
                     // containers: all three for the base score, DnaSlice otherwise
                     for cont in 0..(if score == 0 { 3 } else { 1 }) {
                         blocks.push(Block { name: String::new(), tmpl: MCase { prop: "C07".into(), p, k, score, cont, perm: 0, mrc: false, seqs: vec![] }, lens: vec![len] });
@@ -358,7 +369,7 @@ fn plan_c07(quick: bool, rep: &mut Report) {
                 seqs.push((0..len).map(|_| if g.base() < 2 { 0 } else { 3 }).collect());
             }
             for s in &seqs {
-                for score in if p <= 8 { vec![0usize, 1, 2, 3, 4, 5, 6, 7] } else { vec![0, 2, 3, 5, 7] } {
+                for score in if p <= 8 { vec![0usize, 1, 2, 3, 4, 5, 6, 7, 8] } else { vec![0, 2, 3, 5, 7, 8] } {
                     let c = MCase { prop: "C07".into(), p, k, score, cont: (n % 3) as usize, perm: 0, mrc: false, seqs: vec![ascii(s)] };
                     let o = guarded(|| run_c07(&c));
                     n += 1;
@@ -377,7 +388,7 @@ fn plan_c07(quick: bool, rep: &mut Report) {
     for (sig, det, case) in fails.into_iter().take(10) {
         rep.violation(vcommon::report::Violation { signature: sig, case, detail: det });
     }
-    rep.rule = "Scanner::scan (and the deprecated simple_scan for the two permutation scores): P in {Kmer2, Kmer3, Kmer4} x k = p..p+5 (including k = p) x EVERY sequence of length k..Lmax x 8 score functions {lexicographic, reverse, constant, AT-count, rc-min, parity, two 64-bit-wide scores} x containers {DnaSlice, DnaString, DnaBytes}; interval laws decided by brute force; plus structured long sequences (LCG, tandem repeats, 2-letter) for P in {5, 8, 16}, k up to 64 (content not exhaustive). Non-trivial = >= 2 intervals, tied scores or k = p".into();
+    rep.rule = "Scanner::scan (and the deprecated simple_scan for the two permutation scores): P in {Kmer2, Kmer3, Kmer4} x k = p..p+5 (including k = p) x EVERY sequence of length k..Lmax x 9 score functions {lexicographic, reverse, constant usize::MAX, AT-count, rc-min, parity, two 64-bit-wide scores, extremes-only (0 / usize::MAX-1 / usize::MAX)} x containers {DnaSlice, DnaString, DnaBytes}; interval laws decided by brute force; plus structured long sequences (LCG, tandem repeats, 2-letter) for P in {5, 8, 16}, k up to 64 (content not exhaustive). Non-trivial = >= 2 intervals, tied scores or k = p".into();
     rep.floor("all-sequences/P2:two_or_more_intervals", 1);
     rep.floor("all-sequences/P3:k_equals_p", 1);
     rep.floor("all-sequences/P4:tied_scores", 1);
